@@ -1,15 +1,17 @@
 --------------------------- MODULE MCClusterDial ---------------------------
 (* Plans for the replay of ClusterDial.tla: every behaviour of MaxSteps steps is a plan (the sequence of steps taken). *)
 EXTENDS ClusterDial, Json, TLCExt
-VARIABLE plan
-mcvars == <<vars, plan>>
-MCInit == Init /\ plan = <<>>
-MCNext == \/ Tick /\ plan' = Append(plan, [op |-> "tick"])
-          \/ Build /\ plan' = Append(plan, [op |-> "build"])
-          \/ Call /\ plan' = Append(plan, [op |-> "call"])
-          \/ \E s \in Servers : Flip(s) /\ plan' = Append(plan, [op |-> "flip", s |-> s])
+VARIABLES plan,
+          fb      \* some walk of the plan ended in the fallback and succeeded there (the first server was back)
+mcvars == <<vars, plan, fb>>
+MCInit == Init /\ plan = <<>> /\ fb = FALSE
+FallbackHit == result' = "ok" /\ Len(attempts') >= 2 /\ attempts'[Len(attempts')] = 1
+MCNext == \/ Tick /\ plan' = Append(plan, [op |-> "tick"]) /\ UNCHANGED fb
+          \/ Build /\ plan' = Append(plan, [op |-> "build"]) /\ fb' = (fb \/ FallbackHit)
+          \/ Call /\ plan' = Append(plan, [op |-> "call"]) /\ fb' = (fb \/ FallbackHit)
+          \/ \E s \in Servers : Flip(s) /\ plan' = Append(plan, [op |-> "flip", s |-> s]) /\ UNCHANGED fb
 MCSpec == MCInit /\ [][MCNext]_mcvars
 \* plans worth replaying: they end with a call or a build, and contain at least one failed walk
 Interesting == steps = MaxSteps /\ plan[Len(plan)].op \in {"call", "build"}
-Emit == Interesting => PrintT(<<"CASE", ToJson([plan |-> plan])>>)
+Emit == Interesting => PrintT(<<"CASE", ToJson([plan |-> plan, fb |-> fb])>>)
 =============================================================================
